@@ -546,6 +546,12 @@ class loop_if(x12_node):
                         else:
                             del x12path.loop_list[0]
                             return child.getnodebypath2(x12path.format())
+                elif child.is_loop() and len(x12path.loop_list) == 0 and x12path.seg_id is not None \
+                        and x12path.id_val is None and x12path.ele_idx is None \
+                        and child.id.upper() == x12path.seg_id.upper() \
+                        and not any(c.is_segment() and c.id == x12path.seg_id for c in self.childIterator()):
+                    # the last loop id might look like a segment id (997: AK2, AK3)
+                    return child
                 elif child.is_segment() and len(x12path.loop_list) == 0 and x12path.seg_id is not None:
                     if x12path.id_val is None:
                         if x12path.seg_id == child.id:
